@@ -415,7 +415,7 @@ class Ctx:
                 json.dump({"property": self.prop, "key": f["key"], "what": f["what"], "tier": self.tier,
                            "seed": self.seed, "replay": f["replay"]}, fh, indent=1, default=str)
             print("VIOLATION property=%s replay=%s" % (self.prop, path))
-            print("  key=%s count=%d: %s" % (f["key"], f["count"], str(f["what"])[:1500]))
+            print("  key=%s count=%d: %s" % (f["key"], f["count"], str(f["what"])[:600]))
             rc = 1
         if violations:
             with open(os.path.join(REPLAYS, "%s-all.json" % self.prop), "w") as fh:
